@@ -65,7 +65,20 @@ def eq_expr(ex, a, b):
         return z3.And([eq_expr(ex, x, y) for x, y in zip(a.fields, b.fields)])
     if isinstance(a, Tup) and isinstance(b, Tup):
         return z3.And([eq_expr(ex, x, y) for x, y in zip(a.items, b.items)])
-    raise Unsupported("eq on %r / %r" % (a, b))
+    ai, bi = getattr(a, "items", None), getattr(b, "items", None)
+    if ai is not None and bi is not None:
+        if len(ai) != len(bi):
+            return z3.BoolVal(False)
+        return z3.And([eq_expr(ex, x, y) for x, y in zip(ai, bi)]) if ai else z3.BoolVal(True)
+    if isinstance(a, Opaque) and isinstance(b, Opaque) and a.tag == b.tag:
+        return z3.BoolVal(True)
+    if isinstance(a, Str) and bi is not None or isinstance(b, Str) and ai is not None:
+        x = a.bytes() if isinstance(a, Str) else [i.e for i in ai]
+        y = b.bytes() if isinstance(b, Str) else [i.e for i in bi]
+        if len(x) != len(y):
+            return z3.BoolVal(False)
+        return z3.And([p == q for p, q in zip(x, y)]) if x else z3.BoolVal(True)
+    raise Unsupported("eq on %r / %r" % (str(a)[:80], str(b)[:80]))
 
 
 @intr("<_ as PartialEq>::eq")
@@ -478,8 +491,32 @@ def _next(ex, args, f):
             return NONE
         it.s = s.sub(1)
         return some(Int(s.byte(0), "u8"))
+    if it.kind == "char_indices":
+        if len(s) == 0:
+            return NONE
+        it.s = s.sub(1)
+        it.idx += 1
+        return some(Tup([usize(it.idx - 1), ch(s.byte(0))]))
+    if it.kind == "rsplit":
+        if it.done:
+            return NONE
+        i, w = find_last(ex, s, it.pat)
+        if i is None:
+            it.done = True
+            return some(s)
+        it.s = s.sub(0, i)
+        return some(s.sub(i + w))
     if it.kind == "split":
         if it.done:
+            return NONE
+        lim = getattr(it, "limit", None)
+        if lim is not None:
+            if lim <= 1:
+                it.done = True
+                return some(s) if lim == 1 else NONE
+            it.limit = lim - 1
+        if getattr(it, "terminator", False) and len(s) == 0:
+            it.done = True
             return NONE
         i, w = find_first(ex, s, it.pat)
         if i is None:
@@ -628,7 +665,11 @@ def render_args(ex, fa):
 
 @intr("std::fmt::format", "alloc::fmt::format")
 def _format(ex, args, f):
-    return render_args(ex, args[0])
+    try:
+        return render_args(ex, args[0])
+    except Unsupported:
+        # messages with numbers etc.: only their existence matters (error texts are not part of any property)
+        return Opaque("string")
 
 
 class Formatter:
@@ -649,3 +690,116 @@ def _write_str(ex, args, f):
     fm = deref_all(ex, args[0])
     fm.out += as_str(ex, args[1]).bytes()
     return Adt("Result", "Ok", [UNIT])
+
+
+# ---- more str primitives (plausible replacements a maintainer might reach for) ------------------------------------------------
+@intr(S + "trim_matches")
+def _trim_matches(ex, args, f):
+    s = as_str(ex, args[0])
+    i = 0
+    while i < len(s):
+        c, w = match_at(ex, s, i, args[1])
+        if w == 0 or not ex.decide(c):
+            break
+        i += w
+    j = len(s)
+    while j > i:
+        c, w = match_at(ex, s, j - 1, args[1])
+        if not ex.decide(c):
+            break
+        j -= 1
+    return s.sub(i, j)
+
+
+@intr(S + "trim_start")
+def _trim_start(ex, args, f):
+    s = as_str(ex, args[0])
+    i = 0
+    while i < len(s) and ex.decide(is_ws_byte(s.byte(i))):
+        i += 1
+    return s.sub(i)
+
+
+@intr(S + "trim_end")
+def _trim_end(ex, args, f):
+    s = as_str(ex, args[0])
+    j = len(s)
+    while j > 0 and ex.decide(is_ws_byte(s.byte(j - 1))):
+        j -= 1
+    return s.sub(0, j)
+
+
+@intr(S + "split_terminator")
+def _split_terminator(ex, args, f):
+    it = Iter("split", as_str(ex, args[0]), args[1])
+    it.terminator = True
+    return it
+
+
+@intr(S + "rsplit")
+def _rsplit(ex, args, f):
+    return Iter("rsplit", as_str(ex, args[0]), args[1])
+
+
+@intr(S + "splitn")
+def _splitn(ex, args, f):
+    n = deref_all(ex, args[1]).conc()
+    if n is None:
+        raise Unsupported("splitn with symbolic n")
+    it = Iter("split", as_str(ex, args[0]), args[2])
+    it.limit = n
+    return it
+
+
+@intr(S + "char_indices")
+def _char_indices(ex, args, f):
+    it = Iter("char_indices", as_str(ex, args[0]))
+    it.idx = 0
+    return it
+
+
+@intr(S + "get")
+def _str_get(ex, args, f):
+    s = as_str(ex, args[0])
+    r = deref_all(ex, args[1])
+    n = len(s)
+    lo = r.fields[0] if r.ty != "RangeTo" else usize(0)
+    hi = r.fields[-1] if r.ty != "RangeFrom" else usize(n)
+    if ex.decide(z3.Or(z3.UGT(hi.e, n), z3.UGT(lo.e, hi.e))):
+        return NONE
+    return some(s.sub(conc_usize(ex, lo, "get"), conc_usize(ex, hi, "get")))
+
+
+@intr("char::methods::<impl char>::is_ascii_uppercase")
+def _isup(ex, args, f):
+    return Bool(is_upper(_c(args, ex)))
+
+
+@intr("char::methods::<impl char>::is_ascii_lowercase")
+def _islow(ex, args, f):
+    return Bool(is_lower(_c(args, ex)))
+
+
+@intr("char::methods::<impl char>::is_ascii_punctuation")
+def _ispunct(ex, args, f):
+    c = _c(args, ex)
+    return Bool(z3.Or(z3.And(z3.UGE(c, 0x21), z3.ULE(c, 0x2f)), z3.And(z3.UGE(c, 0x3a), z3.ULE(c, 0x40)), z3.And(z3.UGE(c, 0x5b), z3.ULE(c, 0x60)),
+                      z3.And(z3.UGE(c, 0x7b), z3.ULE(c, 0x7e))))
+
+
+@intr("char::methods::<impl char>::is_whitespace", "char::methods::<impl char>::is_ascii_whitespace")
+def _iswsp(ex, args, f):
+    c = _c(args, ex)
+    return Bool(z3.Or(c == 0x20, z3.And(z3.UGE(c, 0x09), z3.ULE(c, 0x0d))))
+
+
+@intr("char::methods::<impl char>::is_alphanumeric", "char::methods::<impl char>::is_numeric", "char::methods::<impl char>::is_alphabetic")
+def _isalnum_uni(ex, args, f):
+    # Unicode-aware classes restricted to the ASCII bound of the engine
+    c = _c(args, ex)
+    d, a = is_digit(c), z3.Or(is_upper(c), is_lower(c))
+    if f.rstrip().endswith("is_numeric"):
+        return Bool(d)
+    if f.rstrip().endswith("is_alphabetic"):
+        return Bool(a)
+    return Bool(z3.Or(d, a))
